@@ -621,6 +621,14 @@ def reader_path_checksums(rng, tier, rep, hx):
                                       [4294967295, 2147483647], [4294967295, 2147483646], [4294967295, 2147483645], [4294967295, 2147483644]))
             if len(b) == gen.flen(b[0] >> 3) and rng.random() < 0.5:      # (the burst may have changed the format bits)
                 inp["chain"] = 1
+        if rng.random() < 0.3:
+            # the frame is not the first thing in the reader: other bytes come before it and the reader stands after them
+            inp["prefix"] = rng.choice((1, 3, 7, 14, 29))
+            if rng.random() < 0.6:
+                # ... another complete frame (what is decoded is the frame at the reader's position, not the one before it)
+                odf = rng.choice((17, 18, 11, 4, 5, 20, 21, 0, 16))
+                inp["prefix_bytes"] = list(with_parity(es_frame(rng, odf) if odf in (17, 18) else rnd_frame(rng, odf)))
+                inp["prefix"] = len(inp["prefix_bytes"])
         ins.append(inp)
     ev = reader_checks.hx_reader(hx, ins)
     verdicts, st, tr = core.validate_events("Trace_Reader", ev, rep.prop + "-reader")
@@ -630,5 +638,6 @@ def reader_path_checksums(rng, tier, rep, hx):
         for owner, field in v["pairs"]:
             rep.mismatch(owner, v["cls"], field, {"kind": "reader", "bytes": e["bytes"], "hex": bytes(e["bytes"]).hex(), "script": e["script"],
                                                   "out": e["out"], "plain": e["plain"], "base": ins[v["index"]].get("base", [0, 0]),
-                                                  "chain": ins[v["index"]].get("chain", 0)})
+                                                  "chain": ins[v["index"]].get("chain", 0), "prefix": ins[v["index"]].get("prefix", 0),
+                                                  "prefix_bytes": ins[v["index"]].get("prefix_bytes")})
     rep.extra["reader_path_decodes"] = len(ev)
